@@ -1,6 +1,6 @@
 /* ql-rec: stand-in for bin/qmail-local (and, as qr-rec, for qmail-remote).  Records argv, real
    and effective ids, supplementary groups, cwd and the first bytes of fd 0 under $NQV_REC, then
-   prints $NQV_QL_OUT (default none) and exits $NQV_QL_EXIT (default 0). */
+   prints $NQV_QL_OUT (default none; or the bytes given in hex in $NQV_QL_OUTHEX) and exits $NQV_QL_EXIT (default 0). */
 #include <fcntl.h>
 #include <grp.h>
 #include <stdio.h>
@@ -27,6 +27,15 @@ int main(int argc, char **argv)
   fprintf(f, "\ncwd=%s\n", getcwd(cwd, sizeof cwd) ? cwd : "?");
   { char b[256]; ssize_t n = pread(0, b, sizeof b, 0); fprintf(f, "stdin="); if (n > 0) hexs(f, b, n); fprintf(f, "\n"); }
   fclose(f);
-  if (o) write(1, o, strlen(o));
+  {
+    /* NQV_QL_OUTHEX: output given in hex, so that it may contain NUL and any other byte */
+    const char *h = getenv("NQV_QL_OUTHEX");
+    if (h && *h) {
+      static char ob[8192]; size_t n = 0;
+      while (h[0] && h[1] && n < sizeof ob) { unsigned v; if (sscanf(h, "%2x", &v) != 1) break; ob[n++] = (char) v; h += 2; }
+      write(1, ob, n);
+    }
+    else if (o) write(1, o, strlen(o));
+  }
   _exit(x ? atoi(x) : 0);
 }
